@@ -89,6 +89,7 @@ struct AState {
   std::string obs;
   std::string intent = "-";
   std::string result = "-";
+  int step           = 0; // number of simcalls already executed on behalf of the current call
   sg4::ActorPtr ref;
   std::vector<Slot> slots;
 };
@@ -215,10 +216,13 @@ static std::string observer_view(ka::SimcallObserver* o)
 }
 
 // ------------------------------------------------------------------------------------------------------------------
+// Which side created the CommImpl (its "type") and whether a matched comm is still RUNNING or already DONE are artefacts
+// under the model checker (a matched comm is declared DONE by the first is_enabled()/test() evaluation that meets it): a
+// comm is described by its two parties only.
 static std::string comm_desc(const kv::CommImpl* c)
 {
-  return "comm=" + S(c->id_) + ":" + (c->get_type() == kv::CommImplType::SEND ? "S" : "R") + ":" + S(pid_of(c->src_actor_.get())) + ">" +
-         S(pid_of(c->dst_actor_.get())) + ":" + c->get_state_str() + (c->is_detached() ? ":det" : "");
+  return "comm=" + S(c->id_) + ":" + S(pid_of(c->src_actor_.get())) + ">" + S(pid_of(c->dst_actor_.get())) +
+         (c->is_detached() ? ":det" : "");
 }
 
 // same evaluation as mc::actor_is_enabled (a hidden symbol of libsimgrid)
@@ -296,9 +300,9 @@ static std::string fingerprint()
 static void hook_executed(ka::ActorImpl* actor, int times)
 {
   std::string intent = "?", result = "?";
-  for (auto const& A : st)
+  for (auto& A : st)
     if (A.created && A.pid == actor->get_pid()) {
-      intent = A.intent;
+      intent = "step=" + S(A.step++) + " " + A.intent;
       result = A.result;
     }
   emit("X " + S(actor->get_pid()) + " " + S(times) + " | " + intent + " | " + observer_view(actor->simcall_.observer_) + " | " +
@@ -339,7 +343,10 @@ static void body(int me)
     A.obs += name + "=" + std::to_string(v) + ",";
     last = v;
   };
-  auto intent = [&A](const std::string& op, const std::string& params) { A.intent = "pc=" + S(A.pc) + " op=" + op + " " + params; };
+  auto intent = [&A](const std::string& op, const std::string& params) {
+    A.intent = "pc=" + S(A.pc) + " op=" + op + " " + params;
+    A.step   = 0;
+  };
   auto completed = [&](int i) {
     Slot& sl   = slots[i];
     sl.pending = false;
